@@ -331,7 +331,7 @@ static string run_art(const vector<string> &a) {
       pk.insert(pk.end(), id, id + 8);
       pk.push_back(0x00); pk.push_back(0x50);   // OpDmx, little endian
       pk.push_back(0); pk.push_back(14);         // version
-      pk.push_back(static_cast<uint8_t>(i));     // sequence
+      pk.push_back(static_cast<uint8_t>(f.size() >= 7 ? vh::num(f[6]) : i));     // sequence
       pk.push_back(1);                           // physical
       pk.push_back(static_cast<uint8_t>(vh::num(f[3])));  // universe (subnet | universe)
       pk.push_back(static_cast<uint8_t>(vh::num(f[2])));  // net
@@ -424,7 +424,7 @@ static string run_artn(const vector<string> &a) {
       pk.insert(pk.end(), id, id + 8);
       pk.push_back(0x00); pk.push_back(0x50);
       pk.push_back(0); pk.push_back(14);
-      pk.push_back(static_cast<uint8_t>(i));
+      pk.push_back(static_cast<uint8_t>(f.size() >= 7 ? vh::num(f[6]) : i));   // sequence
       pk.push_back(1);
       pk.push_back(static_cast<uint8_t>(vh::num(f[3])));
       pk.push_back(static_cast<uint8_t>(vh::num(f[2])));
